@@ -123,8 +123,11 @@ func isUnlikelyCandidate(node *html.Node) bool {
 // the output is parsed again. The text of the elements in literalTextElements is written
 // out as it is by the HTML serializer, which is only read back the same way when they are
 // HTML elements. Inside <svg> and <math> they are ordinary elements, whose text holds
-// whatever the page has escaped there. So in there <script> and <style> are removed, and
-// the other ones are replaced by their children, whose text is escaped like any other.
+// whatever the page has escaped there. So in there they are removed. Only <xmp> and
+// <plaintext>, whose text a browser would show, leave their children behind (unless they
+// are hidden themselves); that text is escaped like any other. The rest is never
+// rendered: <noscript>, <iframe> and the like are skipped by name during the walk, which
+// would not see text that was moved out of them.
 func unwrapLiteralTextInForeignContent(root *html.Node) {
 	for _, tagName := range literalTextElements {
 		for _, elem := range dom.GetElementsByTagName(root, tagName) {
@@ -132,7 +135,7 @@ func unwrapLiteralTextInForeignContent(root *html.Node) {
 				continue
 			}
 
-			if tagName != "script" && tagName != "style" {
+			if (tagName == "xmp" || tagName == "plaintext") && domutil.IsProbablyVisible(elem) {
 				for _, child := range dom.ChildNodes(elem) {
 					elem.RemoveChild(child)
 					elem.Parent.InsertBefore(child, elem)
